@@ -104,4 +104,41 @@ mod verif_oracle_prio3 {
             }
         }
     }
+
+    // unit prio3_derive: the joint randomness seed is bound to EVERY part (each byte of each part, and their order); the query randomness to
+    // the verification key, the context, the nonce and the number of proofs
+    #[test]
+    fn oracle_derive_transcripts() {
+        use crate::flp::Flp;
+        let vdaf: Prio3<SumVec<Field128, ParallelSum<Field128, Mul>>, XofTurboShake128, 32> = Prio3::new(3, 2, 0xFFFF_0001, SumVec::new(2, 3, 2).unwrap()).unwrap();
+        for n in 1..=5usize {
+            let parts: Vec<Seed<32>> = (0..n).map(|k| Seed::from_bytes([(k as u8).wrapping_mul(17).wrapping_add(3); 32])).collect();
+            let base = vdaf.derive_joint_rand_seed(b"ctx", parts.iter());
+            for k in 0..n { for pos in [0usize, 15, 31] {
+                let mut p2 = parts.clone();
+                let mut b = [0u8; 32]; b.copy_from_slice(p2[k].as_ref()); b[pos] ^= 1; p2[k] = Seed::from_bytes(b);
+                if vdaf.derive_joint_rand_seed(b"ctx", p2.iter()) == base {
+                    println!("COUNTEREXAMPLE Prio3::derive_joint_rand_seed with {} parts: flipping byte {} of part {} does not change the joint randomness seed - that part is not bound", n, pos, k);
+                    return;
+                }
+            } }
+            if n >= 2 {
+                let mut p2 = parts.clone(); p2.swap(0, n - 1);
+                if vdaf.derive_joint_rand_seed(b"ctx", p2.iter()) == base { println!("COUNTEREXAMPLE Prio3::derive_joint_rand_seed with {} parts: exchanging the first and the last part does not change the seed", n); return; }
+                if vdaf.derive_joint_rand_seed(b"ctx", parts[..n - 1].iter()) == base { println!("COUNTEREXAMPLE Prio3::derive_joint_rand_seed: dropping the last of {} parts does not change the seed", n); return; }
+            }
+            if vdaf.derive_joint_rand_seed(b"ctY", parts.iter()) == base { println!("COUNTEREXAMPLE Prio3::derive_joint_rand_seed: the context is not bound"); return; }
+        }
+        let (vk, nonce) = ([7u8; 32], [9u8; 16]);
+        let q = vdaf.derive_query_rands(&vk, b"ctx", &nonce);
+        let mut vk2 = vk; vk2[31] ^= 1; let mut n2 = nonce; n2[15] ^= 1;
+        if vdaf.derive_query_rands(&vk2, b"ctx", &nonce) == q { println!("COUNTEREXAMPLE Prio3::derive_query_rands: the last byte of the verification key is not bound"); }
+        if vdaf.derive_query_rands(&vk, b"ctx", &n2) == q { println!("COUNTEREXAMPLE Prio3::derive_query_rands: the last byte of the nonce is not bound"); }
+        if vdaf.derive_query_rands(&vk, b"cty", &nonce) == q { println!("COUNTEREXAMPLE Prio3::derive_query_rands: the context is not bound"); }
+        let vdaf3: Prio3<SumVec<Field128, ParallelSum<Field128, Mul>>, XofTurboShake128, 32> = Prio3::new(3, 3, 0xFFFF_0001, SumVec::new(2, 3, 2).unwrap()).unwrap();
+        let q3 = vdaf3.derive_query_rands(&vk, b"ctx", &nonce);
+        if q3[..q.len()] == q[..] { println!("COUNTEREXAMPLE Prio3::derive_query_rands: the number of proofs is not bound (the 2-proof randomness is a prefix of the 3-proof randomness)"); }
+        // the specified order: [num_proofs] before the nonce (a 1-byte nonce prefix equal to num_proofs must not collide with the swapped order)
+        if q.len() != vdaf.typ.query_rand_len() * 2 { println!("COUNTEREXAMPLE Prio3::derive_query_rands returns {} elements, want query_rand_len * num_proofs = {}", q.len(), vdaf.typ.query_rand_len() * 2); }
+    }
 }
